@@ -39,7 +39,7 @@ PROPS = {
         partial=[],
     ),
     'C09': dict(
-        gen=['Lock'], props=['C09'], model=['Prim/Lock', 'Machine/Run', 'Machine/Step', 'Machine/Kernel', 'Judge/Judges'], harness='c09',
+        gen=['Lock'], props=['C09', 'MachineStructure'], model=['Prim/Lock', 'Machine/Run', 'Machine/Step', 'Machine/Kernel', 'Judge/Judges', 'Lemmas/KView', 'Lemmas/OView', 'Lemmas/CView', 'Lemmas/CStepFrames', 'Lemmas/CStep'], harness='c09',
         trusted_base=KERNEL_TB + MACHINE_TB + [
             'shape templates (exact AST match, else broken obligation): Lock.available, __release__, __aenter__, __aexit__, '
             'Notification.__awake_next__/__subscribe__/__unsubscribe__',
@@ -162,10 +162,10 @@ PROPS = {
         partial=["until_exit_time (body abandoned and children closed in the trigger's time step) is not proved: judge + correspondence only"],
     ),
     'C08': dict(
-        gen=['Tracked', 'Timing'], props=['C08'], model=['Machine/Run', 'Machine/Step', 'Machine/Kernel', 'Judge/Judges'], harness='c08',
+        gen=['Tracked', 'Timing'], props=['C08', 'MachineStructure'], model=['Machine/Run', 'Machine/Step', 'Machine/Kernel', 'Judge/Judges', 'Lemmas/KView', 'Lemmas/OView', 'Lemmas/CView', 'Lemmas/CStepFrames', 'Lemmas/CStep'], harness='c08',
         trusted_base=KERNEL_TB + MACHINE_TB + ['coroutine skeletons pinned by regenerated templates (context.py, task.py, timing/notification/condition/flag, tracked.py)'],
         assumptions=['valid programs only: the generators avoid usage errors (past at= dates, negative delays, inverting a Moment)'],
-        partial=['truth_at_resume and no-lost-wake-up are not proved on the machine: judge + correspondence only (F8: false for nested connectives)'],
+        partial=['Props/MachineStructure.lean proves on the whole machine, for every program and every number of steps, that a condition object keeps its class and operands (condition_shape_forever, connective_children_forever, inverse_forever) and that the listeners of a tracked value / resource level are never dropped or reordered (tracked_listeners_append_only, resource_listeners_append_only); truth_at_resume and no-lost-wake-up are not proved on the machine: judge + correspondence only (F8: false for nested connectives)'],
     ),
     'C14': dict(
         gen=['Ticker', 'Timing'], props=['C14', 'Skeletons'], model=['Machine/Run', 'Judge/Judges'], harness='c14',
@@ -174,7 +174,7 @@ PROPS = {
         partial=[],
     ),
     'C13': dict(
-        gen=['Pipe', 'Timing'], props=['C13', 'Skeletons'], model=['Prim/Pipe', 'Machine/Run', 'Judge/Judges'], harness='c13',
+        gen=['Pipe', 'Timing'], props=['C13', 'MachineStructure', 'Skeletons'], model=['Prim/Pipe', 'Machine/Run', 'Judge/Judges', 'Lemmas/KView', 'Lemmas/OView', 'Lemmas/CView', 'Lemmas/CStepFrames', 'Lemmas/CStep'], harness='c13',
         trusted_base=KERNEL_TB + MACHINE_TB + [
             'translated from source: the arithmetic and decisions of Pipe.transfer/_throttle_subscribers/UnboundedPipe.transfer; statement skeleton (zero guard, try/finally _del_subscriber, congestion subscription) matched',
             'IEEE-754 double arithmetic of Lean\'s Float and CPython agree operation by operation (checked bit for bit by the correspondence); CPython >= 3.12 sum() is Neumaier summation (hand-modelled: pySumFloat)',
@@ -288,7 +288,7 @@ MANIFEST_TEXT = {
         technique='Lean 4 invariants over all operation histories + translated decision logic + op-by-op differential replay',
         design_ref='6 (C19), 4.A, 4.B'),
     'C09': dict(
-        level='Lean 4 theorems over an open state-machine model of the lock, for every sequence of enter/resume/abort/exit actions by '
+        level='On the whole machine, for every program and every number of steps: lock_notification_forever (a lock keeps its own queue of waiters; Props/MachineStructure.lean). Lean 4 theorems over an open state-machine model of the lock, for every sequence of enter/resume/abort/exit actions by '
               'any number of activities (hence every schedule and a fault at every suspension point): step_inv/run_inv (6-clause '
               'invariant), mutex, reentrant_depth, always_released, designation_is_head + waiting_order_preserved (FIFO hand-off), '
               'available_iff; transitions tied to locks.py by regenerated templates. The executable whole-machine model reproduces '
@@ -385,7 +385,7 @@ MANIFEST_TEXT = {
         technique='Lean 4 theorems (decision logic / per-primitive / frame level) + exact whole-machine differential traces + Lean trace judge',
         design_ref='6 (C07), 3, 4.B'),
     'C08': dict(
-        level='Lean 4 theorems: invert_negates/invert_all/invert_any (~c is not c for every expression tree and valuation: De Morgan at any depth, After/Before, Eternity/Instant, operator table translated from tracked.py), double_inversion, eval_and/eval_or; invert_reslevel_not_negation (F13). The executable whole-machine model reproduces the real usim to the turn on scope trees and random valid programs with faults at every activation boundary; the Lean judge checks on every implementation trace: every await returns with its condition true, no waiter is left waiting at quiescence with a true condition, bool() of derived conditions equals the boolean-algebra reading.',
+        level='On the whole machine, for every program and every number of steps: condition_shape_forever, connective_children_forever, inverse_forever, tracked_listeners_append_only, resource_listeners_append_only (Props/MachineStructure.lean, seventh per-function inventory). Lean 4 theorems: invert_negates/invert_all/invert_any (~c is not c for every expression tree and valuation: De Morgan at any depth, After/Before, Eternity/Instant, operator table translated from tracked.py), double_inversion, eval_and/eval_or; invert_reslevel_not_negation (F13). The executable whole-machine model reproduces the real usim to the turn on scope trees and random valid programs with faults at every activation boundary; the Lean judge checks on every implementation trace: every await returns with its condition true, no waiter is left waiting at quiescence with a true condition, bool() of derived conditions equals the boolean-algebra reading.',
         note='trusted: Lean kernel + standard axioms; templates/translator; whole-machine model tied by exact traces; truth_at_resume and no-lost-wake-up are not proved on the machine: judge + correspondence only (F8: false for nested connectives)',
         technique='Lean 4 theorems (decision logic / per-primitive / frame level) + exact whole-machine differential traces + Lean trace judge',
         design_ref='6 (C08), 3, 4.B'),
@@ -400,7 +400,7 @@ MANIFEST_TEXT = {
         technique='Lean 4 arithmetic induction over translated code + exact whole-machine differential traces + Lean trace judge',
         design_ref='6 (C14)'),
     'C13': dict(
-        level='Lean 4 theorems over the code of pipe.py translated on every run: the throttling decision computes the fluid '
+        level='On the whole machine, for every program and every number of steps: pipe_identity_forever (Props/MachineStructure.lean). Lean 4 theorems over the code of pipe.py translated on every run: the throttling decision computes the fluid '
               'model\'s scale min(1, throughput / sum of limits) whatever it was before and wakes every transfer whenever it '
               'changes (throttle_scale, throttle_wakes_on_change); rate = min(limit, limit x throughput / sum) (rate_eq_min), combined '
               'flow <= throughput and = throughput when congested (total_flow), uncongested_full_speed; for every number of '
